@@ -152,16 +152,16 @@ def shouldProcess (d : Dec) : List (List Nat) → Res Bool
   | filter :: rest =>
     if filter.length = 0 then .val false
     else match filter[0]? with
-      | none => .panic "site_Serf_shouldProcessQuery_index_filter_0"
+      | none => .panic "site_Serf_shouldProcessQuery_index_1"
       | some t =>
         if t = 0 then
-          match slice1 "site_Serf_shouldProcessQuery_slice_filter_1" filter with
+          match slice1 "site_Serf_shouldProcessQuery_slice_1" filter with
           | .panic s => .panic s
           | .val body => match d.filterNode body with
             | some true => shouldProcess d rest
             | _ => .val false
         else if t = 1 then
-          match slice1 "site_Serf_shouldProcessQuery_slice_filter_1_2" filter with
+          match slice1 "site_Serf_shouldProcessQuery_slice_2" filter with
           | .panic s => .panic s
           | .val body => match d.filterTag body with
             | some true => shouldProcess d rest
@@ -169,7 +169,7 @@ def shouldProcess (d : Dec) : List (List Nat) → Res Bool
         else
           -- default: the warning prints filter[0] once more
           match filter[0]? with
-          | none => .panic "site_Serf_shouldProcessQuery_index_filter_0_2"
+          | none => .panic "site_Serf_shouldProcessQuery_index_2"
           | some _ => .val false
 
 def internalPrefix : List Nat := "_serf_".toList.map (·.toNat)
@@ -189,18 +189,18 @@ def internalQuery (d : Dec) (q : Query) : Outcome :=
     -- queryName := q.Name[len(InternalQueryPrefix):]
     if internalPrefix.length ≤ q.name.length then
       let nm := String.ofList ((q.name.drop internalPrefix.length).map Char.ofNat)
-      if nm = "install-key" then keyHandler "site_serfQueries_handleInstallKey_slice_q_Payload_1" d q.payload
-      else if nm = "use-key" then keyHandler "site_serfQueries_handleUseKey_slice_q_Payload_1" d q.payload
-      else if nm = "remove-key" then keyHandler "site_serfQueries_handleRemoveKey_slice_q_Payload_1" d q.payload
+      if nm = "install-key" then keyHandler "site_serfQueries_handleInstallKey_slice_1" d q.payload
+      else if nm = "use-key" then keyHandler "site_serfQueries_handleUseKey_slice_1" d q.payload
+      else if nm = "remove-key" then keyHandler "site_serfQueries_handleRemoveKey_slice_1" d q.payload
       else .ok false
-    else .panic "site_serfQueries_handleQuery_slice_q_Name_len_InternalQueryPrefix"
+    else .panic "site_serfQueries_handleQuery_slice_1"
   else .ok false  -- handed to the application
 
 /-- serf/serf.go handleQuery followed by the internal-query stage -/
 def handleQuery (d : Dec) (st : State) (q : Query) : State × Outcome :=
   let clock := witness st.queryClock q.ltime
-  match bufferStep "site_Serf_handleQuery_div_LamportTime_len_s_queryBuffer" "site_Serf_handleQuery_index_s_queryBuffer_idx"
-      "site_Serf_handleQuery_index_s_queryBuffer_idx_2" st.queryBuf st.queryMin clock q.ltime with
+  match bufferStep "site_Serf_handleQuery_div_1" "site_Serf_handleQuery_index_1"
+      "site_Serf_handleQuery_index_2" st.queryBuf st.queryMin clock q.ltime with
   | .panic s => (st, .panic s)
   | .val (_, false) => ({ st with queryClock := clock }, .ok false)
   | .val (buf, true) =>
@@ -216,8 +216,8 @@ def handleQuery (d : Dec) (st : State) (q : Query) : State × Outcome :=
 /-- serf/serf.go handleUserEvent -/
 def handleUserEvent (st : State) (ltime : Nat) : State × Outcome :=
   let clock := witness st.eventClock ltime
-  match bufferStep "site_Serf_handleUserEvent_div_LamportTime_len_s_eventBuffer" "site_Serf_handleUserEvent_index_s_eventBuffer_idx"
-      "site_Serf_handleUserEvent_index_s_eventBuffer_idx_2" st.eventBuf st.eventMin clock ltime with
+  match bufferStep "site_Serf_handleUserEvent_div_1" "site_Serf_handleUserEvent_index_1"
+      "site_Serf_handleUserEvent_index_2" st.eventBuf st.eventMin clock ltime with
   | .panic s => (st, .panic s)
   | .val (buf, b) => ({ st with eventBuf := buf, eventClock := clock }, .ok b)
 
@@ -226,16 +226,16 @@ A send on a nil channel is never selected; a send on a closed channel is selecte
 def sendAck (q : OpenQuery) (sc : Sched) : Outcome :=
   if q.closed then .ignored "query closed"
   else if q.ackCh && (sc.space || q.chClosed) then
-    if q.chClosed then .panic "site_QueryResponse_sendAck_send_r_ackCh"
-    else if q.acksMap then .ok false else .panic "site_QueryResponse_sendAck_mapwrite_r_acks"
+    if q.chClosed then .panic "site_QueryResponse_sendAck_send_1"
+    else if q.acksMap then .ok false else .panic "site_QueryResponse_sendAck_mapwrite_1"
   else .ignored "dropped"
 
 /-- serf/query.go sendResponse -/
 def sendResponse (q : OpenQuery) (sc : Sched) : Outcome :=
   if q.closed then .ignored "query closed"
   else if sc.space || q.chClosed then
-    if q.chClosed then .panic "site_QueryResponse_sendResponse_send_r_respCh"
-    else if q.responsesMap then .ok false else .panic "site_QueryResponse_sendResponse_mapwrite_r_responses"
+    if q.chClosed then .panic "site_QueryResponse_sendResponse_send_1"
+    else if q.responsesMap then .ok false else .panic "site_QueryResponse_sendResponse_mapwrite_1"
   else .ignored "dropped"
 
 /-- serf/serf.go handleQueryResponse -/
@@ -251,29 +251,29 @@ def handleQueryResponse (st : State) (r : Response) (sc : Sched) : Outcome :=
 def notifyMsg (d : Dec) (st : State) (buf : List Nat) (sc : Sched) : State × Outcome :=
   if buf.length = 0 then (st, .ignored "empty")
   else match buf[0]? with
-    | none => (st, .panic "site_delegate_NotifyMsg_index_buf_0")
+    | none => (st, .panic "site_delegate_NotifyMsg_index_1")
     | some t =>
-      if t = 0 then match slice1 "site_delegate_NotifyMsg_slice_buf_1" buf with
+      if t = 0 then match slice1 "site_delegate_NotifyMsg_slice_1" buf with
         | .panic s => (st, .panic s)
         | .val body => match d.leave body with
           | none => (st, .ignored "leave does not decode") | some _ => (st, .ok true)
-      else if t = 1 then match slice1 "site_delegate_NotifyMsg_slice_buf_1_2" buf with
+      else if t = 1 then match slice1 "site_delegate_NotifyMsg_slice_2" buf with
         | .panic s => (st, .panic s)
         | .val body => match d.join body with
           | none => (st, .ignored "join does not decode") | some _ => (st, .ok true)
-      else if t = 3 then match slice1 "site_delegate_NotifyMsg_slice_buf_1_3" buf with
+      else if t = 3 then match slice1 "site_delegate_NotifyMsg_slice_3" buf with
         | .panic s => (st, .panic s)
         | .val body => match d.userEvent body with
           | none => (st, .ignored "user event does not decode") | some lt => handleUserEvent st lt
-      else if t = 4 then match slice1 "site_delegate_NotifyMsg_slice_buf_1_4" buf with
+      else if t = 4 then match slice1 "site_delegate_NotifyMsg_slice_4" buf with
         | .panic s => (st, .panic s)
         | .val body => match d.query body with
           | none => (st, .ignored "query does not decode") | some q => handleQuery d st q
-      else if t = 5 then match slice1 "site_delegate_NotifyMsg_slice_buf_1_5" buf with
+      else if t = 5 then match slice1 "site_delegate_NotifyMsg_slice_5" buf with
         | .panic s => (st, .panic s)
         | .val body => match d.queryResponse body with
           | none => (st, .ignored "response does not decode") | some r => (st, handleQueryResponse st r sc)
-      else if t = 9 then match slice1 "site_delegate_NotifyMsg_slice_buf_1_6" buf with
+      else if t = 9 then match slice1 "site_delegate_NotifyMsg_slice_6" buf with
         | .panic s => (st, .panic s)
         | .val body => match d.relayHeader body with
           | none => (st, .ignored "relay header does not decode")
@@ -293,14 +293,14 @@ def mergeEvents (st : State) : List (Option (Nat × Nat)) → State × Outcome
 def mergeRemoteState (d : Dec) (st : State) (buf : List Nat) : State × Outcome :=
   if buf.length = 0 then (st, .ignored "empty")
   else match buf[0]? with
-    | none => (st, .panic "site_delegate_MergeRemoteState_index_buf_0")
+    | none => (st, .panic "site_delegate_MergeRemoteState_index_1")
     | some t =>
       if t ≠ 2 then
         -- the error message prints buf[0] once more
         match buf[0]? with
-        | none => (st, .panic "site_delegate_MergeRemoteState_index_buf_0_2")
+        | none => (st, .panic "site_delegate_MergeRemoteState_index_2")
         | some _ => (st, .ignored "bad type prefix")
-      else match slice1 "site_delegate_MergeRemoteState_slice_buf_1" buf with
+      else match slice1 "site_delegate_MergeRemoteState_slice_1" buf with
         | .panic s => (st, .panic s)
         | .val body => match d.pushPull body with
           | none => (st, .ignored "push/pull does not decode")
@@ -311,10 +311,10 @@ coordinate of another dimensionality before any distance is computed. -/
 def pingComplete (cfg : Cfg) (d : Dec) (payload : List Nat) : Outcome :=
   if payload.length = 0 then .ignored "empty"
   else match payload[0]? with
-    | none => .panic "site_pingDelegate_NotifyPingComplete_index_payload_0"
+    | none => .panic "site_pingDelegate_NotifyPingComplete_index_1"
     | some v =>
       if v ≠ 1 then .ignored "unsupported ping version"
-      else match slice1 "site_pingDelegate_NotifyPingComplete_slice_payload_1" payload with
+      else match slice1 "site_pingDelegate_NotifyPingComplete_slice_1" payload with
         | .panic s => .panic s
         | .val body => match d.coordinate body with
           | none => .ignored "coordinate does not decode"
@@ -324,10 +324,10 @@ def pingComplete (cfg : Cfg) (d : Dec) (payload : List Nat) : Outcome :=
 def decodeTags (d : Dec) (buf : List Nat) : Outcome :=
   if buf.length = 0 then .ok false
   else match buf[0]? with
-    | none => .panic "site_Serf_decodeTags_index_buf_0"
+    | none => .panic "site_Serf_decodeTags_index_1"
     | some b =>
       if b ≠ 255 then .ok false
-      else match slice1 "site_Serf_decodeTags_slice_buf_1" buf with
+      else match slice1 "site_Serf_decodeTags_slice_1" buf with
         | .panic s => .panic s
         | .val body => match d.tags body with
           | none => .ignored "tags do not decode (logged; whatever was decoded is kept)"
@@ -348,10 +348,10 @@ def typedReply (siteIdx siteSlice : String) (typ : Nat) (dec : List Nat → Opti
           | some _ => .ok false
 
 def conflictReply (d : Dec) (p : List Nat) : Outcome :=
-  typedReply "site_Serf_resolveNodeConflict_index_r_Payload_0" "site_Serf_resolveNodeConflict_slice_r_Payload_1" 6 d.member p
+  typedReply "site_Serf_resolveNodeConflict_index_1" "site_Serf_resolveNodeConflict_slice_1" 6 d.member p
 
 def keyReply (d : Dec) (p : List Nat) : Outcome :=
-  typedReply "site_KeyManager_streamKeyResp_index_r_Payload_0" "site_KeyManager_streamKeyResp_slice_r_Payload_1" 8 d.keyResponse p
+  typedReply "site_KeyManager_streamKeyResp_index_1" "site_KeyManager_streamKeyResp_slice_1" 8 d.keyResponse p
 
 inductive Input where
   /-- a gossip message handed to NotifyMsg -/
@@ -397,30 +397,30 @@ def modelled : List (String × List String) :=
 
 /-- every `.panic` site name that occurs in the skeleton -/
 def coveredSites : List String :=
-  ["site_delegate_NotifyMsg_index_buf_0", "site_delegate_NotifyMsg_slice_buf_1", "site_delegate_NotifyMsg_slice_buf_1_2",
-   "site_delegate_NotifyMsg_slice_buf_1_3", "site_delegate_NotifyMsg_slice_buf_1_4", "site_delegate_NotifyMsg_slice_buf_1_5",
-   "site_delegate_NotifyMsg_slice_buf_1_6",
-   "site_delegate_MergeRemoteState_index_buf_0", "site_delegate_MergeRemoteState_index_buf_0_2", "site_delegate_MergeRemoteState_slice_buf_1",
-   "site_Serf_handleUserEvent_div_LamportTime_len_s_eventBuffer", "site_Serf_handleUserEvent_index_s_eventBuffer_idx",
-   "site_Serf_handleUserEvent_index_s_eventBuffer_idx_2",
-   "site_Serf_handleQuery_div_LamportTime_len_s_queryBuffer", "site_Serf_handleQuery_index_s_queryBuffer_idx",
-   "site_Serf_handleQuery_index_s_queryBuffer_idx_2",
-   "site_Serf_shouldProcessQuery_index_filter_0", "site_Serf_shouldProcessQuery_slice_filter_1",
-   "site_Serf_shouldProcessQuery_slice_filter_1_2", "site_Serf_shouldProcessQuery_index_filter_0_2",
-   "site_serfQueries_handleQuery_slice_q_Name_len_InternalQueryPrefix",
-   "site_serfQueries_handleInstallKey_slice_q_Payload_1", "site_serfQueries_handleUseKey_slice_q_Payload_1",
-   "site_serfQueries_handleRemoveKey_slice_q_Payload_1",
-   "site_QueryResponse_sendAck_send_r_ackCh", "site_QueryResponse_sendAck_mapwrite_r_acks",
-   "site_QueryResponse_sendResponse_send_r_respCh", "site_QueryResponse_sendResponse_mapwrite_r_responses",
-   "site_pingDelegate_NotifyPingComplete_index_payload_0", "site_pingDelegate_NotifyPingComplete_slice_payload_1",
-   "site_Serf_decodeTags_index_buf_0", "site_Serf_decodeTags_slice_buf_1",
-   "site_Serf_resolveNodeConflict_index_r_Payload_0", "site_Serf_resolveNodeConflict_slice_r_Payload_1",
-   "site_KeyManager_streamKeyResp_index_r_Payload_0", "site_KeyManager_streamKeyResp_slice_r_Payload_1"]
+  ["site_delegate_NotifyMsg_index_1", "site_delegate_NotifyMsg_slice_1", "site_delegate_NotifyMsg_slice_2",
+   "site_delegate_NotifyMsg_slice_3", "site_delegate_NotifyMsg_slice_4", "site_delegate_NotifyMsg_slice_5",
+   "site_delegate_NotifyMsg_slice_6",
+   "site_delegate_MergeRemoteState_index_1", "site_delegate_MergeRemoteState_index_2", "site_delegate_MergeRemoteState_slice_1",
+   "site_Serf_handleUserEvent_div_1", "site_Serf_handleUserEvent_index_1",
+   "site_Serf_handleUserEvent_index_2",
+   "site_Serf_handleQuery_div_1", "site_Serf_handleQuery_index_1",
+   "site_Serf_handleQuery_index_2",
+   "site_Serf_shouldProcessQuery_index_1", "site_Serf_shouldProcessQuery_slice_1",
+   "site_Serf_shouldProcessQuery_slice_2", "site_Serf_shouldProcessQuery_index_2",
+   "site_serfQueries_handleQuery_slice_1",
+   "site_serfQueries_handleInstallKey_slice_1", "site_serfQueries_handleUseKey_slice_1",
+   "site_serfQueries_handleRemoveKey_slice_1",
+   "site_QueryResponse_sendAck_send_1", "site_QueryResponse_sendAck_mapwrite_1",
+   "site_QueryResponse_sendResponse_send_1", "site_QueryResponse_sendResponse_mapwrite_1",
+   "site_pingDelegate_NotifyPingComplete_index_1", "site_pingDelegate_NotifyPingComplete_slice_1",
+   "site_Serf_decodeTags_index_1", "site_Serf_decodeTags_slice_1",
+   "site_Serf_resolveNodeConflict_index_1", "site_Serf_resolveNodeConflict_slice_1",
+   "site_KeyManager_streamKeyResp_index_1", "site_KeyManager_streamKeyResp_slice_1"]
 
 /-- sites of the modelled functions that are trivially safe in the source and have no checked counterpart here
 (a map made two lines earlier; sends on channels the library never closes) -/
 def triviallySafe : List String :=
-  ["site_delegate_MergeRemoteState_mapwrite_leftMap", "site_Serf_handleUserEvent_send_s_config_EventCh",
-   "site_Serf_handleQuery_send_s_config_EventCh"]
+  ["site_delegate_MergeRemoteState_mapwrite_1", "site_Serf_handleUserEvent_send_1",
+   "site_Serf_handleQuery_send_1"]
 
 end SerfModel.Handlers
